@@ -86,6 +86,12 @@ theorem sim_step (w : SWorld ℝ) (op : SOp ℝ) (e : POp ℝ) (he : op.erase w 
     cases hs : w.ps s with
     | none => exact ⟨rfl, rfl, rfl, rfl⟩
     | some p => exact ⟨by rw [viewStore_setP]; rfl, rfl, rfl, rfl⟩
+  | toPlain s d =>
+    cases he
+    simp only [SOp.step, POp.step, viewStore_apply]
+    cases hs : w.ps s with
+    | none => exact ⟨rfl, rfl, rfl, rfl⟩
+    | some p => exact ⟨by rw [viewStore_setP]; rfl, rfl, rfl, rfl⟩
   | assign s d =>
     cases he
     simp only [SOp.step, POp.step, viewStore_apply]
@@ -221,6 +227,11 @@ theorem wf_step (w : SWorld ℝ) (hw : w.WF) (op : SOp ℝ) : (SOp.step w op).1.
     | none => exact hw
     | some p => exact wf_setP hw d p (hw.2 s p hs)
   | toAuto s d =>
+    simp only [SOp.step]
+    cases hs : w.ps s with
+    | none => exact hw
+    | some p => exact wf_setP hw d _ (hw.2 s p hs)
+  | toPlain s d =>
     simp only [SOp.step]
     cases hs : w.ps s with
     | none => exact hw
